@@ -250,7 +250,8 @@ func c16WriteProjector(dir string) (string, error) {
 		"mllama.vision.embedding_length":     uint32(8),
 		"mllama.vision.attention.head_count": uint32(2),
 	}
-	ts := []ggml.Tensor{c16Tensor("v.patch_embd.weight", 500), c16Tensor("mm.0.weight", 64)}
+	// (larger than graph + a layer of every model shape: a GPU that is charged for it without having been asked shows)
+	ts := []ggml.Tensor{c16Tensor("v.patch_embd.weight", 1500000), c16Tensor("mm.0.weight", 64)}
 	p := filepath.Join(dir, "projector.gguf")
 	fh, err := os.Create(p)
 	if err != nil {
